@@ -266,7 +266,54 @@ def run_case(case):
     return fails
 
 
+def run_nested(case):
+    """An open type value that is itself a record with an open type field (ContentInfo -> ... -> Attribute style): the outer field
+    is resolved by the default map, the inner one only by the caller-supplied map, which therefore has to reach the nested
+    decoding. case: {'nested': True, 'x': int, 'tagged': bool}"""
+    fails = []
+    ex6 = ptag.Tag(ptag.tagClassContext, ptag.tagFormatConstructed, 6)
+    ex3 = ptag.Tag(ptag.tagClassContext, ptag.tagFormatConstructed, 3)
+    innerRec = univ.Sequence(componentType=namedtype.NamedTypes(
+        namedtype.NamedType('id2', univ.Integer()),
+        namedtype.NamedType('blob2', univ.Any().subtype(explicitTag=ex6), openType=opentype.OpenType('id2', {}))))
+    outer = univ.Sequence(componentType=namedtype.NamedTypes(
+        namedtype.NamedType('id', univ.Integer()),
+        namedtype.NamedType('blob', univ.Any().subtype(explicitTag=ex3) if case['tagged'] else univ.Any(), openType=opentype.OpenType('id', {1: innerRec}))))
+    for cname, kw in CODECS:
+        codec = cname.split('-')[0]
+        iv = innerRec.clone()
+        iv['id2'] = 7
+        iv['blob2'] = univ.OctetString(b'v%d' % case['x'])       # (a string: explicit tags over INTEGER in indefinite form are finding F01)
+        ov = outer.clone()
+        ov['id'] = 1
+        ov['blob'] = iv
+        e = lib.encode(codec, ov, **kw)
+        if not e.ok:
+            fails.append({'sub': 'nested-' + cname, 'kind': 'encode-raises', 'sig': e.sig, 'msg': e.brief(), 'obs': None})
+            continue
+        d = lib.decode(codec, e.value, outer, openTypes={univ.Integer(7): univ.OctetString()}, decodeOpenTypes=True)
+        if not d.ok:
+            fails.append({'sub': 'nested-' + cname, 'kind': 'decode-raises', 'sig': d.sig, 'msg': '%s | e=%s' % (d.brief(), e.value.hex()[:120]), 'obs': None})
+            continue
+        try:
+            mid = d.value['blob']
+            leaf = mid['blob2']
+            ok = isinstance(leaf, univ.OctetString) and not isinstance(leaf, univ.Any) and bytes(leaf.asOctets()) == b'v%d' % case['x'] and int(mid['id2']) == 7
+        except Exception as ex:
+            ok, leaf = False, 'raises %s' % harness.exc_sig(ex)
+        if not ok:
+            fails.append({'sub': 'nested-' + cname, 'kind': 'not-resolved', 'sig': '', 'obs': None,
+                          'msg': 'the nested open type field (only the caller map maps its governing value) came back as %r | e=%s' % (leaf, e.value.hex()[:120])})
+    return fails
+
+
 def replay(case):
+    if case.get('nested'):
+        return [dict(f, case=ir.to_jsonable(case), obs=None) for f in run_nested(case)]
+    return _replay(case)
+
+
+def _replay(case):
     return [dict(f, case=ir.to_jsonable(case), obs=None) for f in run_case(case)]
 
 
@@ -276,6 +323,8 @@ def run_shard(desc, seed, tier, col):
     @st.composite
     def cases(draw):
         d = gen.D(draw, dict(gen.DEFAULT_CFG, **INNER_CFG))
+        if d.pct(4):
+            return {'nested': True, 'x': d.int(-300, 70000), 'tagged': d.pct(50)}
         gk = d.pick(['INTEGER', 'INTEGER', 'OID'])
         n = d.int(1, 3)
         keys = []
@@ -321,6 +370,11 @@ def run_shard(desc, seed, tier, col):
         return case
 
     def body(case):
+        if case.get('nested'):
+            col.case(case, True, ['nested-open-types'], sample={'shape': 'record -> ANY DEFINED BY -> record -> ANY DEFINED BY (caller map)', 'leaf': case['x']})
+            for f in run_nested(case):
+                col.fail(f['sub'], f['kind'], f['msg'], case, sig=f['sig'])
+            return
         Tin = case['inner_type']
         nontriv = ir.depth(Tin) >= 1 or case['field'] != 'any' or case['container'] == 'SET' or bool(case.get('override'))
         feats = ['field:' + case['field'], 'container:' + case['container'], 'gov:' + case['gov_kind'],
@@ -348,6 +402,8 @@ def _f_eoo(failure):
     if not failure['sub'].endswith(('-CER', '-BER-indef')):
         return False
     case = fz.case_of(failure)
+    if case.get('nested'):
+        return False
     Tin = case['inner_type']
     if any(fz.explicit_over_nonindef_prim(Tin, v) for v in case['inner_values']):
         return True
